@@ -1,4 +1,326 @@
+/-
+C12 — helper lemmas: the compile-time stage (`mkRatio`, `ratioDivide`, `commonTy`, `castCtx`, `pairCtx`)
+evaluates to the expected constants; integer facts about truncating division.
+-/
+import Mathlib.Data.Rat.Floor
+import Mathlib.Tactic.Ring
+import Mathlib.Tactic.Linarith
+import Mathlib.Tactic.FieldSimp
 import Tetl.C12.Model
 import Tetl.C12.Spec
+import TetlProofs.C14.Props
 namespace Tetl.C12
+open Tetl Tetl.C14
+
+/-! ## documented preconditions, as decidable predicates -/
+
+/-- a representation the model covers: a signed builtin integer type of 32 to 64 bits -/
+def RepOk (r : ITy) : Prop := r.sg = true ∧ 32 ≤ r.w ∧ r.w ≤ 64
+instance (r : ITy) : Decidable (RepOk r) := by unfold RepOk; infer_instance
+
+/-- a period as `ratio<…>::type` produces it: positive numerator and denominator (values of `intmax_t`) -/
+def PerOk (p : Ratio) : Prop := 0 < p.num ∧ 0 < p.den ∧ p.num ≤ imax.max ∧ p.den ≤ imax.max
+instance (p : Ratio) : Decidable (PerOk p) := by unfold PerOk; infer_instance
+
+/-- `ratio_divide<p, q>` is a well-formed constant expression: both products fit `intmax_t` -/
+def DivOk (p q : Ratio) : Prop := p.num * q.den ≤ imax.max ∧ p.den * q.num ≤ imax.max
+instance (p q : Ratio) : Decidable (DivOk p q) := by unfold DivOk; infer_instance
+
+/-- the rational value of a period -/
+def Ratio.toRat (p : Ratio) : ℚ := (p.num : ℚ) / (p.den : ℚ)
+
+theorem imax_max : imax.max = 9223372036854775807 := by decide
+theorem imax_min : imax.min = -9223372036854775808 := by decide
+
+theorem imax_inR (x : Int) : imax.inR x = true ↔ -9223372036854775808 ≤ x ∧ x ≤ 9223372036854775807 := by
+  rw [inR_iff, imax_max, imax_min]
+
+theorem repOk_w {r : ITy} (h : RepOk r) : 1 ≤ r.w := by unfold RepOk at h; omega
+
+theorem repOk_promote {r : ITy} (h : RepOk r) : r.promote = r := by
+  unfold ITy.promote; unfold RepOk at h
+  have : ¬ r.w < 32 := by omega
+  simp [this]
+
+/-- every value of a covered representation is a value of `intmax_t` -/
+theorem repOk_sub {r : ITy} (h : RepOk r) (x : Int) (hx : r.inR x = true) : imax.inR x = true := by
+  obtain ⟨hs, h1, h2⟩ := h
+  rw [inR_iff] at hx
+  rw [imax_inR]
+  unfold ITy.min ITy.max at hx
+  simp only [hs, if_true] at hx
+  have hp : (2:Int) ^ (r.w - 1) ≤ 2 ^ 63 := pow_mono _ _ (by omega)
+  have : (2:Int) ^ 63 = 9223372036854775808 := by norm_num
+  omega
+
+theorem ity_beq (a b : ITy) : (a == b) = true ↔ a = b := by
+  cases a with | mk w1 s1 => cases b with | mk w2 s2 =>
+  show (instBEqITy.beq _ _) = true ↔ _
+  simp [ITy.mk.injEq, instBEqITy.beq]
+
+theorem ity_beq_false (a b : ITy) : (a == b) = false ↔ a ≠ b := by
+  have h := ity_beq a b
+  cases hb : (a == b)
+  · simp only [true_iff]; intro e; rw [← h, hb] at e; exact Bool.noConfusion e
+  · simp only [Bool.true_eq_false, false_iff, ne_eq, not_not]; exact h.mp hb
+
+/-- `common_type_t<A, B>` of two covered representations is the wider one, again covered -/
+theorem common_repOk {a b : ITy} (ha : RepOk a) (hb : RepOk b) :
+    RepOk (ITy.common a b) ∧ a.w ≤ (ITy.common a b).w ∧ b.w ≤ (ITy.common a b).w := by
+  have pa := repOk_promote ha
+  have pb := repOk_promote hb
+  obtain ⟨hsa, ha1, ha2⟩ := ha
+  obtain ⟨hsb, hb1, hb2⟩ := hb
+  unfold ITy.common
+  by_cases hab : a = b
+  · subst hab
+    have : (a == a) = true := (ity_beq a a).mpr rfl
+    simp only [this, if_true]
+    exact ⟨⟨hsa, ha1, ha2⟩, Nat.le_refl _, Nat.le_refl _⟩
+  · have : (a == b) = false := (ity_beq_false a b).mpr hab
+    simp only [this, Bool.false_eq_true, if_false]
+    unfold ITy.usual
+    simp only [pa, pb, hsa, hsb, beq_self_eq_true, if_true]
+    by_cases hw : a.w ≥ b.w
+    · rw [if_pos hw]; exact ⟨⟨hsa, ha1, ha2⟩, Nat.le_refl _, hw⟩
+    · rw [if_neg hw]; exact ⟨⟨hsb, hb1, hb2⟩, by omega, Nat.le_refl _⟩
+
+/-- `CR = common_type_t<to_rep, Rep, intmax_t>` is `intmax_t` for covered representations -/
+theorem cr_eq {a b : ITy} (ha : RepOk a) (hb : RepOk b) : ITy.common (ITy.common a b) imax = imax := by
+  obtain ⟨⟨hs, h1, h2⟩, _, _⟩ := common_repOk ha hb
+  generalize ITy.common a b = c at *
+  have pc := repOk_promote (r := c) ⟨hs, h1, h2⟩
+  unfold ITy.common
+  by_cases hc : c = imax
+  · subst hc; rfl
+  · have : (c == imax) = false := (ity_beq_false c imax).mpr hc
+    simp only [this, Bool.false_eq_true, if_false]
+    unfold ITy.usual
+    have pi : imax.promote = imax := by decide
+    simp only [pc, pi, hs]
+    have hw : ¬ c.w ≥ imax.w := by
+      intro hge
+      apply hc
+      have h64 : c.w = 64 := by have : imax.w = 64 := rfl; omega
+      cases c with | mk w s => simp only at hs h64; subst hs; subst h64; rfl
+    have hsg : (true == imax.sg) = true := by decide
+    simp only [hsg, hw, if_true, if_false]
+
+theorem inR_sub_common {a b : ITy} (ha : RepOk a) (hb : RepOk b) (x : Int) (hx : a.inR x = true) :
+    (ITy.common a b).inR x = true := by
+  obtain ⟨⟨hs, h1, h2⟩, hwa, _⟩ := common_repOk ha hb
+  obtain ⟨hsa, ha1, ha2⟩ := ha
+  generalize ITy.common a b = c at *
+  rw [inR_iff] at hx ⊢
+  unfold ITy.min ITy.max at hx ⊢
+  simp only [hs, hsa, if_true] at hx ⊢
+  have hp : (2:Int) ^ (a.w - 1) ≤ 2 ^ (c.w - 1) := pow_mono _ _ (by omega)
+  omega
+
+/-! ## the run-time primitives on in-range values -/
+
+theorem imax_conv {x : Int} (h : imax.inR x = true) : imax.conv x = x := conv_of_inR imax (by decide) x h
+
+theorem imax_arith {x : Int} (h : imax.inR x = true) : arith imax x = .ok x := arith_ok imax (by decide) x h
+
+theorem cdiv_pos (t : ITy) (a b : Int) (hb : 0 < b) : cdiv t a b = .ok (Int.tdiv a b) := by
+  unfold cdiv
+  have h1 : (b == 0) = false := by simpa using (by omega : b ≠ 0)
+  have h2 : (b == -1) = false := by simpa using (by omega : b ≠ -1)
+  simp [h1, h2]
+
+theorem tdiv_one (a : Int) : Int.tdiv a 1 = a := by simp
+
+/-! ## truncating division and the rationals -/
+
+theorem floor_div (m D : Int) (hD : 0 < D) : ⌊(m : ℚ) / (D : ℚ)⌋ = m / D := by
+  have := Rat.floor_intCast_div_natCast m D.toNat
+  have hD' : ((D.toNat : ℕ) : ℤ) = D := Int.toNat_of_nonneg (by omega)
+  have h2 : ((D.toNat : ℕ) : ℚ) = (D : ℚ) := by exact_mod_cast congrArg (fun z : ℤ => (z : ℚ)) hD'
+  rw [h2, hD'] at this
+  exact this
+
+theorem ceil_div (m D : Int) (hD : 0 < D) : ⌈(m : ℚ) / (D : ℚ)⌉ = -((-m) / D) := by
+  have h := floor_div (-m) D hD
+  have e : (((-m : Int)) : ℚ) / D = -((m : ℚ) / D) := by push_cast; ring
+  rw [e, Int.floor_neg] at h
+  omega
+
+theorem rat_floor_eq (x : ℚ) : x.floor = ⌊x⌋ := rfl
+theorem rat_ceil_eq (x : ℚ) : x.ceil = ⌈x⌉ := by
+  rw [Rat.ceil_eq_neg_floor_neg]
+  show -⌊-x⌋ = _
+  rw [Int.floor_neg]; simp
+
+/-! ## the compile-time stage -/
+
+theorem gcd_imax (n d : Int) (hn : 0 ≤ n) (hd : 0 ≤ d) (hn' : n ≤ imax.max) (hd' : d ≤ imax.max) :
+    C14.gcd imax imax n d = .ok ((Int.gcd n d : Nat) : Int) := by
+  have hc : ITy.common imax imax = imax := by decide
+  have := C14.Props.gcd_eq imax imax (by decide) (by decide) n d (by rw [hc]; omega) (by rw [hc]; omega)
+  rw [this]; rfl
+
+theorem lcm_imax (n d : Int) (hn : 0 ≤ n) (hd : 0 ≤ d) (hn' : n ≤ imax.max) (hd' : d ≤ imax.max)
+    (hl : ((Int.lcm n d : Nat) : Int) ≤ imax.max) :
+    C14.lcm imax imax n d = .ok ((Int.lcm n d : Nat) : Int) := by
+  have hc : ITy.common imax imax = imax := by decide
+  have := C14.Props.lcm_eq imax imax (by decide) (by decide) n d (by rw [hc]; omega) (by rw [hc]; omega) (by rw [hc]; exact hl)
+  rw [this]; rfl
+
+theorem gcd_pos_int (n d : Int) (hn : 0 < n) : 0 < ((Int.gcd n d : Nat) : Int) := by
+  have : 0 < Int.gcd n d := Int.gcd_pos_of_ne_zero_left _ (by omega)
+  exact_mod_cast this
+
+theorem gcd_le_left_int (n d : Int) (hn : 0 < n) : ((Int.gcd n d : Nat) : Int) ≤ n := by
+  exact Int.le_of_dvd hn (Int.gcd_dvd_left n d)
+
+/-- `ratio<n, d>` for positive template arguments: both divided by their gcd -/
+theorem mkRatio_pos (n d : Int) (hn : 0 < n) (hd : 0 < d) (hn' : n ≤ imax.max) (hd' : d ≤ imax.max) :
+    mkRatio n d = .ok ⟨n / ((Int.gcd n d : Nat) : Int), d / ((Int.gcd n d : Nat) : Int)⟩ := by
+  have hg := gcd_pos_int n d hn
+  have hgn := gcd_le_left_int n d hn
+  unfold mkRatio
+  rw [gcd_imax n d (by omega) (by omega) hn' hd']
+  have hs : sign n * sign d = 1 := by unfold sign; rw [if_neg (by omega), if_neg (by omega)]; rfl
+  have ha1 : absImpl n = .ok n := by unfold absImpl; rw [if_pos (by omega)]
+  have ha2 : absImpl d = .ok d := by unfold absImpl; rw [if_pos (by omega)]
+  have hmm := imax_max
+  have hmin := imax_min
+  have i1 : arith imax (1 : Int) = .ok 1 := imax_arith (by decide)
+  have i2 : arith imax (1 * n) = .ok n := by rw [Int.one_mul]; exact imax_arith ((imax_inR n).mpr (by omega))
+  simp only [ha1, ha2, hs, i1, i2, bind, Except.bind, cdiv_pos _ _ _ hg]
+  rw [Int.tdiv_eq_ediv_of_nonneg (by omega), Int.tdiv_eq_ediv_of_nonneg (by omega)]
+
+/-- numerator / denominator of `ratio_divide<p, q>` -/
+def cfN (p q : Ratio) : Int := (p.num * q.den) / ((Int.gcd (p.num * q.den) (p.den * q.num) : Nat) : Int)
+def cfD (p q : Ratio) : Int := (p.den * q.num) / ((Int.gcd (p.num * q.den) (p.den * q.num) : Nat) : Int)
+
+theorem ratioDivide_eq (p q : Ratio) (hp : PerOk p) (hq : PerOk q) (h : DivOk p q) :
+    ratioDivide p q = .ok ⟨cfN p q, cfD p q⟩ := by
+  obtain ⟨p1, p2, p3, p4⟩ := hp
+  obtain ⟨q1, q2, q3, q4⟩ := hq
+  obtain ⟨h1, h2⟩ := h
+  have hA : 0 < p.num * q.den := Int.mul_pos p1 q2
+  have hB : 0 < p.den * q.num := Int.mul_pos p2 q1
+  have hmm := imax_max
+  unfold ratioDivide
+  rw [imax_arith ((imax_inR _).mpr (by omega)), imax_arith ((imax_inR _).mpr (by omega))]
+  simp only [bind, Except.bind]
+  rw [mkRatio_pos _ _ hA hB h1 h2]
+  rfl
+
+/-- cross-multiplied form of `cfN / cfD = (p.num * q.den) / (p.den * q.num)`; positivity; bounds -/
+theorem cf_facts (p q : Ratio) (hp : PerOk p) (hq : PerOk q) :
+    0 < cfN p q ∧ 0 < cfD p q ∧ cfN p q ≤ p.num * q.den ∧ cfD p q ≤ p.den * q.num ∧
+      cfN p q * (p.den * q.num) = cfD p q * (p.num * q.den) := by
+  obtain ⟨p1, p2, _, _⟩ := hp
+  obtain ⟨q1, q2, _, _⟩ := hq
+  have hA : 0 < p.num * q.den := Int.mul_pos p1 q2
+  have hB : 0 < p.den * q.num := Int.mul_pos p2 q1
+  unfold cfN cfD
+  generalize p.num * q.den = A at *
+  generalize p.den * q.num = B at *
+  have hg := gcd_pos_int A B hA
+  have dA : ((Int.gcd A B : Nat) : Int) ∣ A := Int.gcd_dvd_left A B
+  have dB : ((Int.gcd A B : Nat) : Int) ∣ B := Int.gcd_dvd_right A B
+  generalize ((Int.gcd A B : Nat) : Int) = g at *
+  obtain ⟨a, rfl⟩ := dA
+  obtain ⟨b, rfl⟩ := dB
+  rw [Int.mul_ediv_cancel_left _ (by omega), Int.mul_ediv_cancel_left _ (by omega)]
+  have ha : 0 < a := by
+    rcases Int.lt_trichotomy a 0 with h | h | h
+    · have := Int.mul_neg_of_pos_of_neg hg h; omega
+    · subst h; omega
+    · exact h
+  have hb : 0 < b := by
+    rcases Int.lt_trichotomy b 0 with h | h | h
+    · have := Int.mul_neg_of_pos_of_neg hg h; omega
+    · subst h; omega
+    · exact h
+  refine ⟨ha, hb, ?_, ?_, by ring⟩
+  · have : 1 * a ≤ g * a := Int.mul_le_mul_of_nonneg_right (by omega) (by omega)
+    omega
+  · have : 1 * b ≤ g * b := Int.mul_le_mul_of_nonneg_right (by omega) (by omega)
+    omega
+
+/-- the conversion factor as a rational number -/
+theorem cf_rat (p q : Ratio) (hp : PerOk p) (hq : PerOk q) :
+    (cfN p q : ℚ) / (cfD p q : ℚ) = p.toRat / q.toRat := by
+  obtain ⟨hN, hD, _, _, hx⟩ := cf_facts p q hp hq
+  obtain ⟨p1, p2, _, _⟩ := hp
+  obtain ⟨q1, q2, _, _⟩ := hq
+  unfold Ratio.toRat
+  have e1 : (cfD p q : ℚ) ≠ 0 := by exact_mod_cast (by omega : cfD p q ≠ 0)
+  have e2 : (p.den : ℚ) ≠ 0 := by exact_mod_cast (by omega : p.den ≠ 0)
+  have e3 : (q.den : ℚ) ≠ 0 := by exact_mod_cast (by omega : q.den ≠ 0)
+  have e4 : (q.num : ℚ) ≠ 0 := by exact_mod_cast (by omega : q.num ≠ 0)
+  have hxq : (cfN p q : ℚ) * ((p.den : ℚ) * (q.num : ℚ)) = (cfD p q : ℚ) * ((p.num : ℚ) * (q.den : ℚ)) := by
+    exact_mod_cast congrArg (fun z : ℤ => (z : ℚ)) hx
+  field_simp
+  linarith
+
+theorem castCtx_eq (dst frm : DurTy) (hto : RepOk dst.rep) (hfrm : RepOk frm.rep) (hp : PerOk frm.per) (hq : PerOk dst.per)
+    (h : DivOk frm.per dst.per) :
+    castCtx dst frm = .ok ⟨dst.rep, imax, ⟨cfN frm.per dst.per, cfD frm.per dst.per⟩⟩ := by
+  unfold castCtx
+  rw [ratioDivide_eq _ _ hp hq h, cr_eq hto hfrm]
+  rfl
+
+/-! ## the run-time stage -/
+
+theorem int_beq_one (x : Int) : (x == 1) = decide (x = 1) := by
+  by_cases h : x = 1 <;> simp [h]
+
+/-- the four cast bodies all compute `trunc(c * N / D)` -/
+theorem castCore_eq (toRep : ITy) (N D : Int) (hN : 0 < N) (hD : 0 < D) (hN' : N ≤ imax.max) (hD' : D ≤ imax.max)
+    (c : Int) (hc : imax.inR c = true) (hm : imax.inR (c * N) = true) :
+    castCore ⟨toRep, imax, ⟨N, D⟩⟩ c = .ok (toRep.conv (Int.tdiv (c * N) D)) := by
+  have hmm := imax_max
+  have cN : imax.conv N = N := imax_conv ((imax_inR N).mpr (by omega))
+  have cD : imax.conv D = D := imax_conv ((imax_inR D).mpr (by omega))
+  have cc : imax.conv c = c := imax_conv hc
+  unfold castCore
+  simp only [int_beq_one, cN, cD, cc]
+  by_cases hN1 : N = 1
+  · by_cases hD1 : D = 1
+    · subst hN1; subst hD1; simp
+    · subst hN1
+      simp only [hD1, decide_true, decide_false, Bool.and_false, Bool.false_eq_true, if_false, if_true, Int.mul_one]
+      rw [cdiv_pos _ _ _ hD]; rfl
+  · by_cases hD1 : D = 1
+    · subst hD1
+      simp only [hN1, decide_true, decide_false, Bool.false_and, Bool.false_eq_true, if_false, if_true]
+      rw [imax_arith hm]; simp [bind, Except.bind]
+    · simp only [hN1, hD1, decide_false, Bool.false_and, Bool.false_eq_true, if_false]
+      rw [imax_arith hm]
+      simp only [bind, Except.bind]
+      rw [cdiv_pos _ _ _ hD]
+
+/-- truncating integer division is truncation of the rational quotient -/
+theorem tdiv_trunc (m D : Int) (hD : 0 < D) : Int.tdiv m D = Spec.trunc ((m : ℚ) / (D : ℚ)) := by
+  have hDq : (0 : ℚ) < (D : ℚ) := by exact_mod_cast hD
+  unfold Spec.trunc
+  by_cases hm : 0 ≤ m
+  · have : (0 : ℚ) ≤ (m : ℚ) / (D : ℚ) := div_nonneg (by exact_mod_cast hm) (le_of_lt hDq)
+    rw [if_pos this, rat_floor_eq, floor_div m D hD, Int.tdiv_eq_ediv_of_nonneg hm]
+  · have hneg : (m : ℚ) / (D : ℚ) < 0 := div_neg_of_neg_of_pos (by exact_mod_cast (by omega : m < 0)) hDq
+    rw [if_neg (not_le.mpr hneg), rat_ceil_eq, ceil_div m D hD]
+    have h1 : Int.tdiv (-m) D = (-m) / D := Int.tdiv_eq_ediv_of_nonneg (by omega)
+    have h2 : Int.tdiv (-m) D = -(Int.tdiv m D) := Int.neg_tdiv ..
+    omega
+
+/-- `c` ticks of `p`, expressed in ticks of `q`, as a rational number -/
+theorem scaled_rat (p q : Ratio) (hp : PerOk p) (hq : PerOk q) (c : Int) :
+    (((c * cfN p q : Int)) : ℚ) / (cfD p q : ℚ) = Spec.val p.toRat c / q.toRat := by
+  have h := cf_rat p q hp hq
+  unfold Spec.val
+  push_cast
+  rw [mul_div_assoc, h, mul_div_assoc]
+
+theorem cast_val (p q : Ratio) (hp : PerOk p) (hq : PerOk q) (c : Int) :
+    Int.tdiv (c * cfN p q) (cfD p q) = Spec.cast p.toRat q.toRat c := by
+  obtain ⟨_, hD, _⟩ := cf_facts p q hp hq
+  rw [tdiv_trunc _ _ hD, scaled_rat p q hp hq]
+  rfl
+
 end Tetl.C12
